@@ -66,6 +66,12 @@ CHECKS["C16"] = dict(
    text="6924 documents (0-3 existing imports in every order, `;` or not per import, newline/space/blank-line separators, line/block comments before/between/after the imports, leading blank lines, unresolved `Foo` in expression and/or annotation position, one or two exporting modules) x 2 (quick) / 4 (thorough) histories (fresh server, re-saved document, re-saved exporter, edited exporter then re-save): at every column of every `Foo` the auto-import quick fixes and the completion item's additional edits must have in-document, ordered, non-overlapping ranges; applying them must give a text without new syntax errors that imports Foo from the named module, no longer reports Foo unresolved, and is otherwise the same program.",
    note="Whether a quick fix is offered at all is not asserted. The insert-without-separator defect after an import lacking `;` is a known finding pinned by the repository's own differ test.",
    design_ref="DESIGN.md §5 C16")
+CHECKS["C15"] = dict(
+   category="exploration",
+   technique="exhaustive enumeration of identifier occurrences of every binding construct; oracle: independent lexical-scope resolver + re-parse / re-check / reference-semantics execution of rename results and rename-back",
+   text="Every binding occurrence and use of every parameter, let / tuple / struct / variant / or-pattern variable, if-let and match-arm variable, lambda parameter and captured variable in corpus/bind/* (runnable programs written to cover each binding construct) and in the tests/ modules (12 smallest quick / all thorough): at 3 columns of the token go-to-definition must land on a binding occurrence of the resolver's group and find-references must equal the group exactly; renaming to a fresh name must parse, keep the diagnostics, rename exactly the group's occurrences, keep the program's behaviour (corpus/bind, refsem), and renaming back must restore the original tree.",
+   note="Scoping oracle is a 150-line resolver over the parsed AST (innermost binding wins; or-alternatives form one group). Behaviour only for the runnable corpus programs.",
+   design_ref="DESIGN.md §5 C15")
 NOT_YET = "check not built yet in this round (planned: see DESIGN.md §5)"
 
 hooks_commits = subprocess.run(["git","-C","/repo","log","--format=%H %s"],capture_output=True,text=True).stdout.splitlines()
